@@ -193,7 +193,7 @@ theorem skipBelow_ok (dlim B : ℝ) : ∀ (fuel : Nat) (lo nx : ℝ × ℝ) (res
     obtain ⟨hc, hf0, hd0, hle, hlim0, hlast⟩ := h
     have hc' := List.isChain_cons_cons.1 hc
     unfold skipBelow
-    by_cases hgt : dlim ≥ nx.2
+    by_cases hgt : nx.2 ≤ dlim * ((1.0 : ℝ) + (1e-12 : ℝ))
     · rw [if_pos hgt]
       cases rest with
       | nil =>
@@ -217,7 +217,7 @@ theorem skipBelow_ok (dlim B : ℝ) : ∀ (fuel : Nat) (lo nx : ℝ × ℝ) (res
         · simp only [List.length_cons] at hl; omega
     · rw [if_neg hgt]
       exact
-        { f0 := hf0, f1 := hc'.1.1, d0 := hd0, d1 := hc'.1.2, lim0 := hlim0, lim1 := (not_le.1 hgt).le,
+        { f0 := hf0, f1 := hc'.1.1, d0 := hd0, d1 := hc'.1.2, lim0 := hlim0, lim1 := (by have := not_le.1 hgt; nlinarith),
           chain := List.IsChain.imp (fun _ _ hab => hab.1.le) hc'.2, le := hle }
 
 end Spec.Fracs
